@@ -284,6 +284,13 @@ def _check(area, pid, tier, seed, t0, args):
         brc, blog = (0, '')
         if not args.no_build:
             brc, blog = lake_build(area.TARGETS + ['SmppVerif.Model.Driver'])
+        # a proof obligation that no longer checks does not take the executable model away: when the property modules
+        # fail to build, the driver (models only) is built by itself so that the search for a failing input can still
+        # compare model and implementation
+        driver_built = (brc == 0)
+        if brc != 0 and not args.no_build:
+            drc, _dlog = lake_build(['SmppVerif.Model.Driver'])
+            driver_built = (drc == 0)
         # thorough tier: the compiled property modules (and everything they import) are re-checked by leanchecker, the
         # toolchain's independent re-checker of .olean files (kernel replay of every declaration)
         recheck = None
@@ -363,7 +370,7 @@ def _check(area, pid, tier, seed, t0, args):
         sigs[c.sig] = sigs.get(c.sig, 0) + 1
     disagreements = []
     driver_ok = False
-    if build_ok:
+    if build_ok or driver_built:
         lock.sh()
         try:
             rc, outs, err = run_driver([c.line for c in cases])
